@@ -1,6 +1,6 @@
 # C04 — storage hints are honoured.
 import common, schema, histgen, p_hist
-THEOREMS = ["C04_absent", "C04_no_insert_sections", "C04_no_insert_member", "C04_other_aec", "C04_other_mm", "C04_preamble", "C04_never_returned", "C04_rr_hints", "C04_log_respects_hints", "C04_every_entry_reachable", "C04_reachable_nonvacuous", "C04_nonvacuous"]
+THEOREMS = ["C04_absent", "C04_no_insert_sections", "C04_no_insert_member", "C04_other_aec", "C04_other_mm", "C04_other_direct", "C04_preamble", "C04_never_returned", "C04_rr_hints", "C04_log_respects_hints", "C04_every_entry_reachable", "C04_reachable_nonvacuous", "C04_nonvacuous"]
 EXTRA_PROPERTY_FILES = ("Properties_format",)   # obligations over the regenerated Gen_format.v (translator/format.py)
 def gen_cases(sch, tier, rng):
     cases = []
@@ -31,13 +31,67 @@ def gen_cases(sch, tier, rng):
         h = histgen.gen_history(sch, rng, nops=rng.choice([5, 15, 30]))
         cases.append(p_hist.mk_case(sch, "r%d" % i, h, "random-masks"))
     return cases
+def gen_direct(sch, rng, i, other):
+    """a block the application builds through CdnsBlock's DIRECT interface (add_malformed_message(const MalformedMessage&),
+    add_address_event_count(const AddressEventCount&), table entries through add_ip_address / add_malformed_message_data) under the given
+    other-data mask: 'address events and malformed messages are stored only when their hint bit is set' is a statement about the block,
+    whichever of its add functions is used"""
+    import p_C02
+    bp = histgen.gen_bp(sch, rng, masks=(histgen.ALL_QR_BITS, histgen.ALL_SIG_BITS, 3, other), tps=1000, maxi=rng.choice([1, 3, 10000]))
+    pre = [1, 0, None, [bp]]
+    d = p_C02.DirectBlock()
+    def ip(): v = bytes(rng.getrandbits(8) for _ in range(rng.choice([4, 16]))); return d.add("ip", v, v.hex())
+    def mmd():
+        v = [ip() if rng.random() < 0.6 else None, rng.choice([None, 53, 65535]), rng.choice([None, 0, 5]), rng.choice([None, b"", b"\x00\x01payload"])]
+        return d.add("mmd", v, schema.show(sch["MalformedMessageData"], v))
+    order = ["mm", "aec", "mm", "aec"] if i % 2 else ["aec", "mm"]
+    for what in order:
+        if what == "mm":
+            m = [None, ip() if rng.random() < 0.7 else None, rng.choice([None, 1, 40000]), mmd() if rng.random() < 0.8 else None]
+            if m[1] is None and m[2] is None and m[3] is None: m[2] = 7
+            body = schema.show(sch["MalformedMessage"], m)
+            d.lines.append("B mmitem b _ R[ %s %s" % ("L[ N%d N%d ]" % (rng.choice([0, 5, 1600000000]), rng.randrange(1000)) if rng.random() < 0.7 else "_", body[len("R[ _ "):]))
+        else:
+            d.lines.append("B aecitem b _ R[ N%d %s N%d %s N%d ]" % (rng.choice([0, 1, 5]), rng.choice(["_", "N3"]), ip(), rng.choice(["_", "N2"]), rng.choice([0, 0, 7])))
+    script = ["B new b " + schema.show(sch["BlockParameters"], bp)] + d.lines + ["B dump b"]
+    return {"id": "direct%d" % i, "script": script, "expect": None, "pre": pre, "other": other, "meta": {"kind": "direct-interface/other-data-mask-%d" % other}}
+
+def check_direct(sch, c, il):
+    import refcbor
+    dumps = [l for l in il if l.startswith("out ")]
+    if not dumps: return [("C04", "driver output incomplete: %r" % il[-3:])]
+    blk = bytes.fromhex(dumps[0][4:]) if dumps[0][4:] != "-" else b""
+    if not blk: return []
+    wrapped = b"\x83\x65C-DNS" + schema.enc(sch["FilePreamble"], c["pre"]) + b"\x9f" + blk + b"\xff"
+    try: out = histgen.read_output(sch, wrapped)
+    except (refcbor.Malformed, schema.Nonconforming) as e: return [("C02", "a directly built block is not a well-formed schema-valid block: %s" % e)]
+    why = []
+    for b in out["blocks"]:
+        if b["mms"] and not c["other"] & 1: why.append(("C04", "%d malformed message(s) stored through add_malformed_message(const MalformedMessage&) although the malformed-messages bit of the other-data hints in force (%d) is cleared" % (len(b["mms"]), c["other"])))
+        if b["aec"] and not c["other"] & 2: why.append(("C04", "%d address event(s) stored through add_address_event_count(const AddressEventCount&) although the address-event bit of the other-data hints in force (%d) is cleared" % (len(b["aec"]), c["other"])))
+    return why
+
 def run(ctx):
     sch = schema.load(ctx["mdl"])
     cases = gen_cases(sch, ctx["tier"], ctx["rng"])
     diffs, cases = p_hist.run_histories(ctx, cases, batch=20)
+    # the direct interface under the four other-data masks
+    dcases = [gen_direct(sch, ctx["rng"], i, i % 4) for i in range(24 if ctx["tier"] == "quick" else 800)]
+    impl, model, _ = common.run_both([(c["id"], c["script"]) for c in dcases], ctx["impl"]["drv"], ctx["mdl"], batch=20)
+    for c in dcases:
+        il, ml = impl.get(c["id"], ["<missing>"]), model.get(c["id"], ["<missing>"])
+        c["oracle"] = check_direct(sch, c, il)
+        if any(l.startswith("CRASH") for l in il): c["oracle"].append(("CRASH", "the implementation crashed on a directly built block: " + [l for l in il if l.startswith("CRASH")][0][:200]))
+        a, b = histgen.canon_lines(il), histgen.canon_lines(ml)
+        if a != b:
+            k = next((j for j in range(min(len(a), len(b))) if a[j] != b[j]), min(len(a), len(b)))
+            diffs.append((c["id"], c, "result %d (%s): impl %s vs model %s" % (k, (c["script"][k] if k < len(c["script"]) else "?")[:50], (a[k] if k < len(a) else "<none>")[:100], (b[k] if k < len(b) else "<none>")[:100])))
+    cases = cases + dcases
     return p_hist.finish(ctx, "C04", cases, diffs,
         "records with every member present x {all hints, none, each of the 18 query/response bits alone cleared and alone set, each of the 17 "
         "signature bits alone cleared and alone set, the 4 RR-hint and 4 other-data settings} plus the same masks as a SECOND parameter set switched to (set_active_block_parameters + write_block) on a fresh exporter / mid-block / "
         "right after an automatic flush / after an explicit write_block / after an exporting rotation, plus random masks over random histories. "
         "Independent parse of every output: members present per item vs the mask in force, every entry of every block table referenced by a "
-        "stored item, address events / malformed messages only with their bit, the preamble states the masks applied", related=())
+        "stored item, address events / malformed messages only with their bit, the preamble states the masks applied; plus blocks built through "
+        "CdnsBlock's direct interface (add_malformed_message(const MalformedMessage&), add_address_event_count(const AddressEventCount&)) under each of "
+        "the four other-data masks: the serialised block holds malformed messages / address events only with their bit", related=())
